@@ -26,8 +26,9 @@ ASSUMPTIONS = ["extra does not itself contain a complete report (no parser could
                "in_stream.encoding utf-8 or latin-1 so that 0x9B is encodable"]
 
 FRAGMENTS = ["a", "b", "q", " ", "\n", "\t", "\x1b", "\x1b[", "\x1b[12", "1;2", "R", ";", "\x9b", "\x9b7",
-             "7", "12;", "\x1b[A", "\x1b[1;5C", "\x1bOP", "\x1b[5~", "é", "0", "\x1b[;R", "\x1b[3R", "\x9bR"]
-REPORT = re.compile(r"(\x1b\[|\x9b)\d+;\d+R")
+             "7", "12;", "\x1b[A", "\x1b[1;5C", "\x1bOP", "\x1b[5~", "é", "0", "\x1b[;R", "\x1b[3R", "\x9bR",
+             "\x1b[٣;٤R", "\x1b[1;２R"]
+REPORT = re.compile(r"(\x1b\[|\x9b)[0-9]+;[0-9]+R")      # ASCII digits: only those make a report
 
 
 def gen_parse(rng):
@@ -45,6 +46,8 @@ def gen_parse(rng):
     case = {"kind": "parse", "extra": extra, "csi": csi, "row": row, "col": col, "trailing": trailing,
             "fail_at": fails, "callback": rng.random() < .75,
             "encoding": rng.choice(["utf-8", "latin-1"])}
+    if any(ord(ch) > 255 for ch in extra + trailing):
+        case["encoding"] = "utf-8"
     if case["encoding"] == "utf-8" and csi != "\x9b" and "\x9b" not in extra and rng.random() < .15:
         # sys.stdin decodes with errors="surrogateescape": a typed-ahead byte that is not valid
         # UTF-8 reaches the window as a lone surrogate and stands for exactly that byte
@@ -134,7 +137,9 @@ def run_parse(ctx, case):
         problems.append("unread remainder %r" % (inp.q,))
     if "".join(r.out.log).count("\x1b[6n") != 1:
         problems.append("query written %d times" % "".join(r.out.log).count("\x1b[6n"))
-    ctx.judge(not problems, case, sig, "C18:extra-bytes-undecodable-in-stream-encoding" if case.get("errors") else "C18:parse",
+    unicode_lookalike = re.search(r"(\x1b\[|\x9b)\d+;\d+R", extra) is not None      # \d: any Unicode digit
+    ctx.judge(not problems, case, sig, "C18:non-ascii-digits-taken-for-a-report" if unicode_lookalike else
+              "C18:extra-bytes-undecodable-in-stream-encoding" if case.get("errors") else "C18:parse",
               [want, extra], [got, list(r.calls)], problems, nontrivial)
     inp.q = ""
     inp.fail_plan = []
